@@ -150,9 +150,10 @@ Judge(e, i) ==
              ELSE <<>>
       \* a plan that uses mod is judged against every reading of mod's sign rule (Asm.ModReadings): the code must agree
       \* with ONE reading for the whole plan (a plan with several mod calls binds them to the same rule)
-      hasMod == \E j \in 1..Len(Calls(p)) : Calls(p)[j].fn = "mod"
+      \* (the same for sum over numbers and strings: reading "sumcat" or the left fold, Asm.SumMixed)
+      hasMod == \E j \in 1..Len(Calls(p)) : Calls(p)[j].fn = "mod" \/ Canon(Calls(p)[j].fn) = "sum"
       sem == IF ~hasMod \/ SemBad(E) = <<>> THEN SemBad(E)
-             ELSE IF \E rd \in ModReadings : SemBad(ExecRd(p, e.root, rd)) = <<>> THEN <<>> ELSE SemBad(E)
+             ELSE IF \E rd \in ModReadings \cup {"sumcat"} : SemBad(ExecRd(p, e.root, rd)) = <<>> THEN <<>> ELSE SemBad(E)
   IN [bad |-> total \o det \o pr \o tx \o hf \o pu \o fr \o sem, k |-> E.k, cell |-> cell, post |-> IF E.k = "ok" THEN E.root ELSE e.root]
 
 TCase == /\ ci <= NT
